@@ -5,7 +5,7 @@
 (* on one checker - and of generate calls on one builder; every call is    *)
 (* also made on a fresh identically configured twin (driver: "twin").      *)
 EXTENDS Interp
-CONSTANTS Tier, MaxLen
+CONSTANTS Tier, MaxLen, Part
 
 KOct == OctKey(32, "a", NONE, NONE)
 KShort == OctKey(16, "a", NONE, NONE)
@@ -53,6 +53,20 @@ ClElems ==
     <<CClaimDelOp("iss")>>, <<[op |-> "CErrClear", c |-> 0]>> }
 RECURSIVE ClSeqs(_)
 ClSeqs(n) == IF n = 0 THEN {<<>>} ELSE { e \o t : e \in ClElems, t \in ClSeqs(n - 1) }
+\* asymmetric keys: refused RS256 / ES256 tokens and an unusable JWK between verifies of a good ES256 token (what an
+\* earlier failure leaves behind in the crypto library is hidden state too - the verdict is a function of configuration,
+\* token and clock, which the clause C13.function states outright)
+KEc13 == AsymKey("p256a", 0, NONE, NONE)
+KRsa13 == AsymKey("rsa2048a", 0, NONE, NONE)
+GoodEc == Tok("ES256", <<>>, <<StrM("iss", "me")>>, Sig("valid", "ES256", KEc13))
+PreEc == <<LoadOp(<<KEc13, KRsa13>>), CNewOp, CSetKeyOp("ES256", 0)>>
+EcElems == { <<V(GoodEc)>>, <<V([GoodEc EXCEPT !.sig = Sig("flipbit", "ES256", KEc13)])>>,
+             <<CSetKeyOp("RS256", 1), V(Tok("RS256", <<>>, <<>>, Sig("garbage", "RS256", KRsa13) @@ [len |-> 256])), CSetKeyOp("ES256", 0)>>,
+             <<[op |-> "Load", ring |-> 0, via |-> "load", doc |-> "keys", keys |-> <<WithDefect(AsymKey("p256b", 0, NONE, "bad"), "y", "offcurve")>>]>>,
+             <<[op |-> "CErrClear", c |-> 0]>> }
+RECURSIVE EcSeqs(_)
+EcSeqs(n) == IF n = 0 THEN {<<>>} ELSE { e \o t : e \in EcElems, t \in EcSeqs(n - 1) }
+EcFam == [ab \in EcElems \X EcElems |-> { PreEc \o ab[1] \o ab[2] \o q : q \in EcSeqs(MaxLen - 2) }]
 \* a refusing callback that STAYS installed (the calls after a refusal still go through it), an accepting
 \* one, removal and the context-only update, between verifies
 LifeElems == { <<V(Good)>>, <<V([Good EXCEPT !.sig = Sig("flipbit", "HS256", KOct)])>>, <<CSetCbOp(<<CbRet(1)>>)>>, <<CSetCbOp(<<CbRet(0)>>)>>,
@@ -79,7 +93,21 @@ BuilderNoKey == { <<LoadOp(<<KOct, KShort, K512>>), BNewOp>> \o q : q \in BdSeqs
 
 \* (no definition of the union of the families: TLC evaluates constant definitions eagerly, and the union
 \* of big unnormalised sets is quadratic - see ISpecFam in Interp.tla)
-MCSpec == ISpecP(InFam(CheckerFam) \/ InFam(NoKeyFam) \/ InFam(BuilderFam) \/ script \in BuilderNoKey \/ InFam(ClaimFam) \/ InFam(LifeFam))
+\* Part "nc": tokens whose header or payload segment is not canonically encoded, among canonical ones of other
+\* lengths - whether such a segment is taken is not stated (status "any"), but it is the same answer every time.
+\* The stage runs under an application allocator whose fresh blocks hold something else each time: what a
+\* verdict is computed from is configuration, token and clock, not what the heap happened to hold.
+LongH == [Good EXCEPT !.hdr.m = <<StrM("kid", "k1")>>]
+NcElems ==
+  { <<V(Good)>>, <<V([Good EXCEPT !.hdr.cls = "objnc"])>>, <<V([Good EXCEPT !.pay.cls = "objnc"])>>,
+    <<V([Good EXCEPT !.hdr.cls = "objnc", !.pay.cls = "objnc"])>>, <<V(LongH)>>, <<V([LongH EXCEPT !.hdr.cls = "objnc"])>>,
+    <<V([Good EXCEPT !.pay.m = <<StrM("iss", "me"), StrM("sub", "s")>>, !.pay.cls = "objnc"])>>,
+    <<V([Good EXCEPT !.sig = Sig("flipbit", "HS256", KOct)])>>, <<[op |-> "CErrClear", c |-> 0]>> }
+RECURSIVE NcSeqs(_)
+NcSeqs(n) == IF n = 0 THEN {<<>>} ELSE { e \o t : e \in NcElems, t \in NcSeqs(n - 1) }
+NcFam == [a \in NcElems |-> { Pre3 \o a \o q : q \in NcSeqs(3) }]
+MCSpec == ISpecP(IF Part = "nc" THEN InFam(NcFam)
+                 ELSE (InFam(CheckerFam) \/ InFam(NoKeyFam) \/ InFam(BuilderFam) \/ script \in BuilderNoKey \/ InFam(ClaimFam) \/ InFam(LifeFam) \/ InFam(EcFam)))
 
 \* ---- on the specification: the configuration a verdict is computed from is
 \* exactly what the configuration calls made it; verify, generate and
